@@ -18,6 +18,9 @@ PROPERTY = "C45"
 ENGINE = "E1"
 FUNCTIONS = ["ioflo.base.arbiting.Arbiter.__init__", "Arbiter.FixTruth", "ArbiterSwitch.update",
              "ArbiterPriority.update", "ArbiterTrusted.update", "ArbiterWeighted.update"]
+TECHNIQUE = "E1: symbolic execution of the real arbiters on a real Store; selections (bool), importances, truths (None/True/False/quarter grid/int) and values symbolic"
+LEVEL_TEXT = "bounded model checking: 1-2 inputs (quick), 1-3 inputs (thorough); importance [0,3], value [-2,2], truth k/4 in [-0.5,1.5], default truth k/4 in [0,1]"
+LEVEL_NOTE = "floats modelled as exact reals; all products on the grid are exact in float64"
 ASSUMPTIONS = [
     "Store built without __init__'s bookkeeping shares; arbiter constructed through its real __init__ with an odict of inputs",
     "truth domain per input: None, True, False, k/4 for k in [-2,6] (exact dyadic floats, incl. out-of-range), int in [-1,2]",
